@@ -8,7 +8,8 @@ PROP = {'n_quick': 150,
          'the real crate under a seeded ChaCha20 stream; per shape several marked subsets (quick) or every non-empty subset of the non-fee outputs '
          '(thorough); plus an edge stream (nothing marked, non-address script, zero amounts, i64::MAX and i64::MAX+1, foreign asset, unbalanced, zero '
          'issuance). distinct = distinct case text (shape, marked set, seed); non-trivial = blinding succeeded with at least one confidential output',
- 'trusted': ['IDEAL-COMMITMENT MODEL (partial w.r.t. cryptography): Pedersen commitments and asset generators are formal Z/n-linear combinations over '
+ 'trusted': ['issuance asset / token ids in the case text are derived by the harness from the protocol formulas, independently of TxIn::issuance_ids(); issuances range over {null, explicit, confidential}^2 for (amount, inflation keys) — confidential ones by correspondence only',
+             'IDEAL-COMMITMENT MODEL (partial w.r.t. cryptography): Pedersen commitments and asset generators are formal Z/n-linear combinations over '
              'independent basis elements G, H_asset (Base/FreeMod.v); libsecp256k1-zkp (Borromean range proofs, surjection proofs, ECDH, hash-to-curve) '
              'is not verified',
              'ideal range proof: verifies iff intact, presented with exactly the (commitment, script, generator) it was made for, and its witness opens '
